@@ -2,8 +2,10 @@ package main
 
 import (
 	"fmt"
+	"go/ast"
 	"go/token"
 	"go/types"
+	"regexp"
 	"strconv"
 	"strings"
 
@@ -450,6 +452,43 @@ func paramNames(fn *ssa.Function) []string {
 	return ns
 }
 
+// ghostClauseRE: ghost functions whose meaning is tied to the execution of the function under verification
+var ghostClauseRE = regexp.MustCompile(`\b(calls|returns|lastresult|deferred|exitedloop|visitedloop|atloop|heapatloop)\(`)
+
+// stripGhost weakens a callee postcondition for use at a call site: conjuncts (at the top level and in the
+// consequent of an implication) that mention ghost functions tied to the callee's own execution are dropped;
+// what remains is implied by the original clause. nil: nothing remains.
+func stripGhost(e ast.Expr) ast.Expr {
+	if !ghostClauseRE.MatchString(types.ExprString(e)) {
+		return e
+	}
+	switch n := e.(type) {
+	case *ast.ParenExpr:
+		return stripGhost(n.X)
+	case *ast.BinaryExpr:
+		if n.Op == token.LAND {
+			l, r := stripGhost(n.X), stripGhost(n.Y)
+			if l == nil {
+				return r
+			}
+			if r == nil {
+				return l
+			}
+			return &ast.BinaryExpr{X: l, Op: token.LAND, Y: r}
+		}
+	case *ast.CallExpr:
+		if id, ok := n.Fun.(*ast.Ident); ok && id.Name == "implies_" && len(n.Args) == 2 {
+			if ghostClauseRE.MatchString(types.ExprString(n.Args[0])) {
+				return nil
+			}
+			if c := stripGhost(n.Args[1]); c != nil {
+				return &ast.CallExpr{Fun: n.Fun, Args: []ast.Expr{n.Args[0], c}}
+			}
+		}
+	}
+	return nil
+}
+
 func (x *Exec) applyContract(st *State, fr *Frame, fn *ssa.Function, fc *FuncContract, args []Val, in ssa.Instruction, k Kont) {
 	x.applyContractSig(st, fr, fc, fn.Signature, args, paramNames(fn), in, k)
 }
@@ -460,6 +499,9 @@ func (x *Exec) applyContractSig(st *State, fr *Frame, fc *FuncContract, sig *typ
 		if i < len(args) {
 			vars[n] = args[i]
 		}
+	}
+	for i, a := range args {
+		vars["param"+strconv.Itoa(i)] = a
 	}
 	// signature param names when pnames short (interface methods)
 	off := len(pnames)
@@ -588,9 +630,34 @@ func (x *Exec) applyContractSig(st *State, fr *Frame, fc *FuncContract, sig *typ
 	if closureOfCaller {
 		postEnv.fr, postEnv.pos = fr, pos
 	}
+	// vacuity guard: a callee contract whose postconditions contradict the path at the call site would end
+	// the path silently and discharge everything after it. For the first applications of every callee the
+	// path is probed before and after the postconditions are assumed.
+	guard := false
+	if !x.sess.dry && len(fc.Ensures) > 0 && in != nil {
+		if x.ensGuard == nil {
+			x.ensGuard = map[string]int{}
+		}
+		if x.ensGuard[fc.Key] < 2 {
+			x.ensGuard[fc.Key]++
+			guard = x.sess.CheckSatT(300) == "sat"
+		}
+	}
 	for _, e := range fc.Ensures {
 		if e.When == "panic" {
 			continue
+		}
+		if ghostClauseRE.MatchString(e.Text) {
+			// the clause speaks about the callee's own execution (its call counters, what ITS callees
+			// returned, its loops): at a call site those ghost functions would denote the CALLER's
+			// history (calls("f") == 1 would read as 0 == 1 and silently end the path). Only the part
+			// of the clause that does not mention them is assumed.
+			w := stripGhost(e.Expr)
+			if w == nil {
+				x.note("callee contract clause about the callee's own execution not assumed at the call site: " + fc.Key)
+				continue
+			}
+			e = &Clause{Kind: e.Kind, Text: types.ExprString(w), Expr: w, Props: e.Props, Ord: e.Ord, Line: e.Line, When: e.When}
 		}
 		goal, err := x.evalClause(postEnv, e)
 		if err != nil {
@@ -598,6 +665,11 @@ func (x *Exec) applyContractSig(st *State, fr *Frame, fc *FuncContract, sig *typ
 			continue
 		}
 		x.assume(goal)
+	}
+	if guard && x.sess.CheckSatT(300) == "unsat" {
+		name := fmt.Sprintf("%s/call(%s)@%s/ensures-consistent", x.fnDisplay(fr), fc.Key, x.callOrd(fr, in))
+		o := x.oblig(name, "vacuity", x.propsFor(fr, &Clause{}), pos, "the postconditions of "+fc.Key+" contradict the path at this call site (the path would end silently)")
+		x.check(st, o, "false")
 	}
 	if fc.Opts["maypanic"] == "true" {
 		st2 := st.clone()
@@ -613,7 +685,7 @@ func (x *Exec) applyContractSig(st *State, fr *Frame, fc *FuncContract, sig *typ
 			pEnv.vars[n] = v
 		}
 		for _, e := range fc.Ensures {
-			if e.When != "panic" {
+			if e.When != "panic" || ghostClauseRE.MatchString(e.Text) {
 				continue
 			}
 			if goal, err := x.evalClause(pEnv, e); err == nil {
